@@ -301,3 +301,19 @@ def run(tier, seed, escalate=False):
     res = merge_oracle(res, f, n, "storage_dtype_variants")
     f, n = history_independence("C18", DTYPE_CASES, seed)
     return merge_oracle(res, f, n, "call_history_cases")
+
+
+# ------------------------------------------------------------------ the same argument values in another container / number type
+from oracles import argform_independence
+ARGFORM_CASES = [("fit-p0", "t2", [(lab, (lambda p: lambda d, dim: dnp.fit(_R.t1, d.real, dim, p))(p)) for lab, p in (
+        ("tuple", (1.0, -3.0, 3.0)), ("list", [1.0, -3.0, 3.0]), ("array", np.array([1.0, -3.0, 3.0])), ("ints", (1, -3, 3)))]),
+    ("fit-points", "t2", [(lab, (lambda k: lambda d, dim: dnp.fit(_R.t1, d.real, dim, (1.0, -3.0, 3.0), fit_points=k))(k)) for lab, k in (
+        ("int", 11), ("numpy-int", np.int64(11)))])]
+_run_before_argform = run
+
+
+def run(tier, seed, escalate=False):
+    """… plus: sequence arguments as tuple / list / ndarray, numbers as Python / NumPy scalars, flags as bool / numpy.bool_ / 0-1"""
+    res = _run_before_argform(tier, seed, escalate)
+    f, n = argform_independence("C18", ARGFORM_CASES, seed)
+    return merge_oracle(res, f, n, "argument_form_variants")
